@@ -54,6 +54,9 @@ type Prop struct {
 	Timeout time.Duration
 	// Direct is an optional in-process sweep (needs no model); it appends to the report.
 	Direct func(g *G, r *Report)
+	// Canon (optional) canonicalises an answer line (of the implementation AND of the model)
+	// before anything is compared, e.g. JavaScript text -> token stream.
+	Canon func(ans string) string
 }
 
 var props = map[string]*Prop{}
@@ -151,6 +154,14 @@ func corrMain(args []string) {
 			sa := runAll([]string{*driver}, specReqs, ncpu, 20*time.Second)
 			for k, i := range specIdx {
 				spec[i] = sa[k]
+			}
+		}
+		if p.Canon != nil {
+			for i := range impl {
+				impl[i], model[i] = p.Canon(impl[i]), p.Canon(model[i])
+				if w, ok := spec[i]; ok {
+					spec[i] = p.Canon(w)
+				}
 			}
 		}
 		seen := map[string]bool{}
